@@ -513,3 +513,85 @@ func VF_C08_Storage() {
 	_, bc, bseq, bb := orda.VFSyncState(b.cnt)
 	vf.Assert(ab == 0 && bb == 0 && ac == aseq && bc == bseq, "C08 retrying the sync succeeds: nothing is left to push")
 }
+
+// VF_C07_Entry: the first exchange of a client (create, subscribe,
+// subscribe-or-create of an existing or a new key) is hit by a message fault
+// (response lost, request duplicated) and repeated; afterwards everything is as
+// if it had been delivered once.
+func VF_C07_Entry() {
+	w := vfNewWorld()
+	w.seedCollection(vfCol, 1)
+	a, b := w.newPeer("a", vfCUIDx), w.newPeer("b", vfCUIDy)
+	total := int32(0)
+	exists := vf.Choice("key-exists", 2) == 1
+	if exists {
+		a.cnt = a.cli.CreateCounter(vfKey, a.handlers())
+		_, _ = a.cnt.IncreaseBy(1)
+		total = 1
+		vf.Assert(a.sync() == nil, "creator syncs")
+	}
+	mode := vf.Choice("entry", 3)
+	vf.Tag("entry", mode)
+	vf.Tag("exists", exists)
+	switch mode {
+	case 0:
+		if exists {
+			vf.Assume(false) // creating an existing key is refused (C13)
+		}
+		b.cnt = b.cli.CreateCounter(vfKey, b.handlers())
+	case 1:
+		if !exists {
+			vf.Assume(false) // subscribing to a missing key is refused (C13)
+		}
+		b.cnt = b.cli.SubscribeCounter(vfKey, b.handlers())
+	case 2:
+		b.cnt = b.cli.SubscribeOrCreateCounter(vfKey, b.handlers())
+	}
+	if vf.Choice("local-op-before-first-sync", 2) == 1 && (mode == 0 || (mode == 2 && !exists)) {
+		_, _ = b.cnt.IncreaseBy(100)
+		total += 100
+	}
+	var held []*model.PushPullPack
+	fault := 1 + vf.Choice("fault", 2) // 1: response lost, 2: request delivered twice
+	vf.Tag("fault", fault)
+	panicked, msg := vf.Try(func() {
+		b.exchange(w, fault, &held)
+		b.exchange(w, 0, &held)
+		_, _ = b.cnt.IncreaseBy(10)
+		total += 10
+		b.exchange(w, 0, &held)
+		if exists {
+			a.exchange(w, 0, &held)
+		}
+	})
+	vf.Reach("settled")
+	if panicked {
+		vf.Tag("_panic", msg)
+	}
+	vf.Assert(!panicked, "C07 no panic under message faults")
+	vf.Assert(orda.VFDatatypeState(b.cnt) == model.StateOfDatatype_SUBSCRIBED, "C07 the entry succeeds after the repeat")
+	d := w.datatype(orda.VFDUID(b.cnt))
+	vf.Assert(d != nil && w.logInvariant(d.DUID), "C07 the stored log is a gapless exactly-once order")
+	n := 0
+	for _, dd := range w.store.Datatypes {
+		if dd.Key == vfKey {
+			n++
+		}
+	}
+	vf.Assert(n == 1, "C13 exactly one datatype for the key")
+	snaps := 0
+	for _, o := range w.store.Operations {
+		if o.DUID == d.DUID && o.OpType == model.TypeOfOperation_COUNTER_SNAPSHOT.String() {
+			snaps++
+		}
+	}
+	sv, _, ok := w.serverValue(vfKey)
+	vf.Assert(ok && sv == total, "C07 the server's copy equals the fault-free outcome")
+	vf.Assert(b.cnt.Get() == total, "C07 replica b equals the fault-free outcome")
+	if exists {
+		vf.Assert(a.cnt.Get() == total, "C07 replica a equals the fault-free outcome")
+	}
+	_, _, _, pend := orda.VFSyncState(b.cnt)
+	vf.Assert(pend == 0, "C07 nothing is left pending")
+	vf.Assert(snaps == 1, "C07 the log holds the creator's snapshot operation once and nobody else's")
+}
